@@ -506,11 +506,33 @@ func (p *Plugin) appendIndexName(outBuf []byte, event *pipeline.Event) []byte {
 			if value == "" {
 				value = "not_set"
 			}
-			outBuf = append(outBuf, value...)
+			outBuf = appendEscaped(outBuf, value)
 		}
 	}
 	outBuf = append(outBuf, "\"}}"...)
 	return outBuf
+}
+
+const hexDigits = "0123456789abcdef"
+
+// appendEscaped appends s as the body of a JSON string (without the quotes): the value of an event's field
+// must not be able to close the "_index" string or to break the action line.
+func appendEscaped(out []byte, s string) []byte {
+	for i := 0; i < len(s); i++ {
+		c := s[i]
+		switch {
+		case c == '"' || c == '\\':
+			out = append(out, '\\')
+			out = append(out, c)
+		case c < 0x20:
+			out = append(out, "\\u00"...)
+			out = append(out, hexDigits[c>>4])
+			out = append(out, hexDigits[c&0xf])
+		default:
+			out = append(out, c)
+		}
+	}
+	return out
 }
 
 func (p *Plugin) getAuthHeader() string {
